@@ -280,6 +280,24 @@ def h1(model: Model, rep: Report, cg: CallGraph, ef: Effects):
                 rep.ok("C03.H1", construct, w.loc, found="reviewed exception", required="invalidate or exempt", note=exc)
                 continue
             ok, why = clears_after_or_neutral(model, writer, w.node, M)
+            if not ok and is_private_helper(writer):
+                # the write sits in a helper (``_name`` or a name that did not exist when the rules were written): the helper's statements are part of its callers, where the
+                # guards around the call and the invalidation after it are visible -- decide there (every caller must be fine)
+                from .common import syntactic_callers
+                callers, work, seen_c = [], [writer], set()
+                while work:
+                    g = work.pop()
+                    for c in syntactic_callers(model, g):
+                        if c in seen_c:
+                            continue
+                        seen_c.add(c)
+                        (work if is_private_helper(c) else callers).append(c)
+                if callers:
+                    verdicts = [clears_after_or_neutral(model, c, w.node, M) for c in callers]
+                    if all(v[0] for v in verdicts):
+                        ok, why = True, ""
+                    else:
+                        why = "; ".join(f"in {c.qualname}: {v[1]}" for c, v in zip(callers, verdicts) if not v[0])
             rep.check(ok, "C03.H1", construct, w.loc, found=norm_stmt(w.node) + ("" if ok else f" -- {why}"), required=f"{M.qualname}.cache_clear() after the write on every normal exit",
                       what=f"a value memoised by {M.qualname} survives this change of '{w.attr}': times reported afterwards are stale ({why})",
                       detail=f"{w.attr}")
